@@ -90,6 +90,10 @@ Definition triples_spec2 (adj : nat -> nat -> bool) (n : nat) : nat :=
 Definition clustering_spec (adj : nat -> nat -> bool) (n : nat) : Q :=
   (3 * qnat (triangles_spec adj n) / (qnat (triples_spec2 adj n) / 2))%Q.
 
+(** Number of connected triples: paths b - v - c with b < c (centre v). *)
+Definition connected_triples (adj : nat -> nat -> bool) (n : nat) : nat :=
+  length (filter (fun t => match t with (v, b, c) => (b <? c) && adj v b && adj v c end) (all_triples n)).
+
 (** All sub-lists of length k (in list order): the k-subsets of a duplicate-free list. *)
 Fixpoint sublists_k (k : nat) (l : list nat) : list (list nat) :=
   match l with
